@@ -71,6 +71,11 @@ def run_variant(v, base):
             if p.returncode == 0 and 'VIOLATION' not in out:
                 return v, 'ok', ''
             return v, 'fail', 'benign variant raised an alarm (exit %d): %s' % (p.returncode, out[-600:])
+        if expect.startswith('analysis-error'):
+            needle = expect.split(':', 1)[1] if ':' in expect else ''
+            if p.returncode == 2 and 'ANALYSIS-ERROR' in out and needle in out:
+                return v, 'ok', ''
+            return v, 'fail', 'expected ANALYSIS-ERROR (%s), exit %d: %s' % (needle, p.returncode, out[-400:])
         # fire:<rule>[:<substring that must appear in the report>]
         parts = expect.split(':')
         rule = parts[1]
